@@ -10,7 +10,7 @@ from .. import anchors as A
 from ..consteval import try_fold
 from ..dectree import decide
 from ..envelopes import ENVELOPE_CLASSES, envelope_call
-from ..model import AnalysisError, ClassInfo, FuncInfo, Project, call_name, kwarg, resolved_call_name, walk_local
+from ..model import AnalysisError, ClassInfo, FuncInfo, Project, call_name, kwarg, local_values, resolved_call_name, walk_local
 from ..models import ModelTable
 from ..paths import PState, PathAnalysis, relevance_filter, run_paths, subst_text
 from ..report import Report
@@ -139,6 +139,11 @@ def check(P: Project, R: Report) -> None:
                     code = try_fold(P, f.module, ek["code"]) if "code" in ek else None
                     R.ob("R2", f"{tag}: error.code is an integer constant", isinstance(code, int) and not isinstance(code, bool), where, f"code `{ast.unparse(ek['code']) if 'code' in ek else None}` folds to {code!r}")
                     m = ek.get("message")
+                    if isinstance(m, ast.Name):
+                        # the text bound to a local first (also what a helper's parameter becomes when it is read at its call site)
+                        mv_ = [v_ for v_ in local_values(f.node).get(m.id, []) if v_ is not None]
+                        if len(mv_) == 1:
+                            m = mv_[0]
                     ok_m = isinstance(m, ast.JoinedStr) or (isinstance(m, ast.Constant) and isinstance(m.value, str)) or (isinstance(m, ast.Call) and call_name(m) == "str")
                     R.ob("R2", f"{tag}: error.message is a string", ok_m, where, f"message `{ast.unparse(m) if m is not None else None}`")
                     extra = set(ek) - {"code", "message", "data"}
